@@ -332,6 +332,13 @@ func verifJSONDiff(a, b string) (path string, orderOnly bool) {
 		}
 		return s, nil
 	}
+	if strings.HasPrefix(a, "error(") && strings.HasPrefix(b, "error(") {
+		ea, eb := strings.SplitN(a, "): ", 2), strings.SplitN(b, "): ", 2)
+		if ea[0] == eb[0] {
+			return "error-text", false
+		}
+		return "error-type", false
+	}
 	ta, ga := split(a)
 	tb, gb := split(b)
 	if ta != tb {
